@@ -166,6 +166,29 @@ def main():
                 n += 1
                 a_ = through_stream(kind, [data], len(data)); b_ = through_stream(kind, split(data, cuts), len(data))
                 if a_ != b_: record(kind, 'stream', '%s body with %d bytes after the first member, cut at %r, through Stream.read_body: %s; in one read: %s' % (kind, len(tail), cuts, (b_[0], b_[1] if b_[0] != 'ok' else '%d bytes' % len(b_[1])), (a_[0], a_[1] if a_[0] != 'ok' else '%d bytes' % len(a_[1]))))
+    # decoders are independent of each other and of history: a decoder abandoned in the middle (a connection that dropped after one body byte, never flushed) and
+    # two decoders fed alternately (two responses read concurrently) must not change what another decoder makes of its own body
+    bodies = [('deflate', zlib.compress(b'first response ' * 4)), ('deflate', raw_deflate(b'second response ' * 4)), ('gzip', gzip.compress(b'third response ' * 4))]
+    for (k1, b1), (k2, b2) in itertools.product(bodies, repeat=2):
+        want = stream_decode(k2, [b2])
+        for abandon_after in (1, 2, 3, len(b1) // 2):
+            n += 1; nontrivial += 1
+            d1 = GzipDecompressor() if k1 == 'gzip' else DeflateDecompressor()
+            try: d1.decompress(b1[:abandon_after])
+            except Exception: pass
+            got = stream_decode(k2, [b2[:1], b2[1:]])
+            if got != want: record(k2, 'segmentation', 'after another %s decoder was abandoned %d byte(s) into its body, a fresh decoder gives %s for a %s body that decodes to %s on its own (state shared between decoders)' % (
+                k1, abandon_after, (got[0], got[1] if got[0] != 'ok' else '%d bytes' % len(got[1])), k2, (want[0], '%d bytes' % len(want[1]) if want[0] == 'ok' else want[1])))
+        n += 1; nontrivial += 1
+        da = GzipDecompressor() if k1 == 'gzip' else DeflateDecompressor(); db = GzipDecompressor() if k2 == 'gzip' else DeflateDecompressor()
+        oa = ob = b''
+        try:
+            for i in range(max(len(b1), len(b2))):
+                if i < len(b1): oa += da.decompress(b1[i:i + 1])
+                if i < len(b2): ob += db.decompress(b2[i:i + 1])
+            oa += da.flush(); ob += db.flush(); got2 = (('ok', oa), ('ok', ob))
+        except Exception as e: got2 = ('error', type(e).__name__)
+        if got2 != (stream_decode(k1, [b1]), want): record(k2, 'segmentation', 'two decoders (%s, %s) fed alternately byte by byte: %r, each on its own decodes fine' % (k1, k2, got2 if got2[0] == 'error' else 'different content'))
     doc = {'label': 'bounded', 'functions': ['wpull/decompression.py:GzipDecompressor', 'wpull/decompression.py:DeflateDecompressor', 'wpull/protocol/http/stream.py:Stream.read_body (length framing)'],
            'cases': n, 'distinct_nontrivial': nontrivial, 'bound': '%d payloads x 7 encodings x segmentations (<= 2 cuts near both ends, single bytes, %d seeded random) + truncations at 32 offsets + %d seeded bit flips each' % (len(payloads), extra, extra),
            'rule': 'a case is one decoding run', 'result': 'no violation' if not bad else '%d violations' % len(bad), 'violations': bad[:40], 'known_findings': [],
